@@ -162,6 +162,8 @@ const XMLISH: &[&str] = &[
     "<", "</", "<a", "<a>", "</a>", "<a/>", "<b>", "</b>", "<!--", "-->", "<![CDATA[", "]]>", "<?", "?>", "<?xml version=\"1.0\"?>",
     "<?xml version=\"1.0\" encoding=\"", "\"?>", "&#", "&#x", ";", "&amp;", "&lt;", "&", "xmlns:p=\"u\"", "xmlns=\"u\"", " p:a=\"v\"", "p:", "=",
     "\"", "'", " ", "\n", "\r", "\t", ">", "/>", "a", "x", "\u{feff}", "é", "𝄞", "<!DOCTYPE a>", "<!ENTITY", "UTF-8", "utf-16", "foo", "ISO-8859-1",
+    // the XML namespace bound to another prefix or as the default (accepted by the parser)
+    "<a xmlns:x=\"http://www.w3.org/XML/1998/namespace\" x:lang=\"en\">", "<a xmlns=\"http://www.w3.org/XML/1998/namespace\">", " x:lang=\"en\"", " xmlns:x=\"http://www.w3.org/XML/1998/namespace\"",
     // declarations that a hand-written scanner for the encoding pseudo-attribute has to survive
     "<?xml version=\"1.0\"encoding=\"UTF-8\"?>", "<?xml encoding?>", "<?xml myencoding=\"x\" ?>", "<?xml version='1.0' encoding 'UTF-8'?>", "encoding", " encoding ", "<?xml ", "<?xml\t",
     "xml:id=\"i\"", "xml:space=\"preserve\"", "<a xmlns:p=\"u\">", "<p:a>", "</p:a>", "--", "]", "\0", "\u{1}", "\u{ffff}",
